@@ -13,7 +13,7 @@
    nested strong / nested links suppress both tags under a condition the code writes twice); the
    proof goes through a generalised invariant, pinned below as C10_subtree_invariant. *)
 From Coq Require Import List NArith Bool.
-From V Require Import Base.Bytes Base.Res Model.Ast Model.Html Spec.HtmlSpec Spec.Shape Proofs.HtmlNest.
+From V Require Import Base.Bytes Base.Res Model.Ast Model.Html Spec.HtmlSpec Spec.Shape Spec.NestSpec Proofs.HtmlNest.
 Import ListNotations.
 From Coq Require Import Strings.String.
 Local Open Scope string_scope.
@@ -50,6 +50,29 @@ Theorem C10_subtree_invariant : forall slug o n c st evs st' s,
   nest s evs = Some (res_of (c_prev c) (nval n) ++ fres st (nval n) ++ s).
 Proof. intros slug o n c st evs st' s H3 Hp Hr. exact (proj1 (render_P slug o n c st evs st' s H3 Hp Hr)). Qed.
 Print Assumptions C10_subtree_invariant.
+
+(* the footnote section opens at most once and closes as often as it opens — for EVERY tree, no
+   shape clause needed (the counter fn_ix never returns to 0) *)
+Theorem C10_footnote_section_once : forall slug o t evs,
+  events slug o t = Ok evs ->
+  count_open (B "section") evs = count_close (B "section") evs /\
+  (count_open (B "section") evs <= 1)%nat.
+Proof. exact section_once. Qed.
+Print Assumptions C10_footnote_section_once.
+
+(* table sections: a table that satisfies S3 (and has no table nested in its cells, so that only
+   its own sections are counted) emits one table element, one head section, and one body section
+   exactly when it has a second row — each opened once and closed once *)
+Theorem C10_table_sections : forall slug o c t sp ch st evs st',
+  s3_go (c_parent c) (c_gparent c) (Node (Table t) sp ch) = true ->
+  forallb no_table ch = true ->
+  render slug o c (Node (Table t) sp ch) st = Ok (evs, st') ->
+  let body := if Nat.leb 2 (List.length ch) then 1%nat else 0%nat in
+  count_open (B "thead") evs = 1%nat /\ count_close (B "thead") evs = 1%nat /\
+  count_open (B "tbody") evs = body /\ count_close (B "tbody") evs = body /\
+  count_open (B "table") evs = 1%nat /\ count_close (B "table") evs = 1%nat.
+Proof. exact table_sections. Qed.
+Print Assumptions C10_table_sections.
 
 (* the renderer meets no context it does not handle: no Panic branch of Model/Html.v (cell without
    row / table, alignments index, table without rows, paragraph without parent) is reachable and
